@@ -48,7 +48,7 @@ class Builder:
         self.p = Program()
         p = self.p
         if with_tra:
-            p.tra = [("tv", U256)]
+            p.tra = [("tv", U256), ("ta3", ARR3), ("tpv", PAIR), ("tdyn", DARR)]
         self.values = {}     # test index -> msg.value of its call
         p.c08_values = self.values
         p.structs.append(PAIR)
@@ -94,6 +94,9 @@ class Builder:
             self.add_int(name, [], U256, body + [log_tag(tag), S("return", e=c(1))])
         if with_tra:
             eff("bumpt", 710, [S("aug", op="Add", ty=U256, base=("tra", "tv", TV), path=[], e=c(10))])
+            eff("wct", 717, [S("assign", base=("tra", "ta3", 1), path=[], e=E("list", ARR3, elems=[c(7), c(8), c(9)]), decl=None),
+                             S("assign", base=("tra", "tpv", 2), path=[], e=E("list", PAIR, elems=[c(70), c(80)]), decl=None),
+                             S("assign", base=("tra", "tdyn", 3), path=[], e=E("list", DARR, elems=[c(6), c(6), c(6)]), decl=None)])
         eff("app", 711, [S("append", base=bsto(DYN), path=[], cap=6, e=c(9))])
         eff("popd", 712, [S("expr", e=E("pop", U256, base=bsto(DYN), path=[]))])
         eff("wmap", 713, [S("assign", base=bsto(MP), path=[("i", c(2))], e=c(77), decl=None)])
@@ -186,9 +189,16 @@ class Builder:
             "cstruct": ([S("assign", base=bsto(PV), path=[], e=E("list", PAIR, elems=[c(1), c(2)]), decl=None)], sto(PV), PS, "idp"),
             "cdyn": ([S("assign", base=bsto(DYN), path=[], e=E("list", DARR, elems=[c(1), c(2)]), decl=None)], sto(DYN), DM, "idd"),
             "cbytes": ([S("assign", base=bsto(BS), path=[], e=E("const", ("bytes", 4), v=b"orig"), decl=None)], sto(BS), BM, "idb"),
+            # the same read from TRANSIENT storage
+            "ctarr": ([S("assign", base=("tra", "ta3", 1), path=[], e=E("list", ARR3, elems=[c(1), c(2), c(3)]), decl=None)],
+                      E("tra", ARR3, name="ta3", id=1), MATV, "ida"),
+            "ctstruct": ([S("assign", base=("tra", "tpv", 2), path=[], e=E("list", PAIR, elems=[c(1), c(2)]), decl=None)],
+                         E("tra", PAIR, name="tpv", id=2), PS, "idp"),
+            "ctdyn": ([S("assign", base=("tra", "tdyn", 3), path=[], e=E("list", DARR, elems=[c(1), c(2)]), decl=None)],
+                      E("tra", DARR, name="tdyn", id=3), DM, "idd"),
         }[rd]
         ty = R.ty
-        F = self.call("wc")
+        F = self.call("wct" if rd.startswith("ct") else "wc")
         if ctxk == "cassign":      # container[wc()] = <multi-word read>: the value is copied before wc() runs
             body = setup + [S("assign", base=bsto(cont), path=[("i", F)], e=R, decl=None),
                             S("return", e=E("idx", ty, a=sto(cont), i=c(1)))]
@@ -201,7 +211,8 @@ class Builder:
             raise ValueError(ctxk)
         self.add_test(f"rve_{ctxk}_{rd}", ty, body)
 
-    RVE_CPLX = [f"rve_{cx}_{rd}" for cx in ("cassign", "ccallarg", "clocal") for rd in ("carr", "cstruct", "cdyn", "cbytes")]
+    RVE_CPLX = [f"rve_{cx}_{rd}" for cx in ("cassign", "ccallarg", "clocal")
+                for rd in ("carr", "cstruct", "cdyn", "cbytes", "ctarr", "ctstruct", "ctdyn")]
     RVE_READS = ["sv", "tv", "len", "lenp", "map", "arr", "dynel", "fld", "bal"]
     RVE_CONTEXTS = ["add", "sub", "mul", "div", "mod", "cmp", "bit", "and", "or", "max", "min", "ifexp", "list", "struct",
                     "callargs", "subscript", "assign_rhs", "aug"]
@@ -599,7 +610,7 @@ RVE_POSITIONS = [f"rve_{cx}_{rd}" for cx in Builder.RVE_CONTEXTS for rd in Build
 
 
 def uses_tra(pos):
-    return pos.startswith("rve_") and pos.endswith("_tv")
+    return pos.startswith("rve_") and (pos.endswith("_tv") or pos.rsplit("_", 1)[1].startswith("ct"))
 
 
 def _emit(b, pos):
